@@ -34,7 +34,11 @@ def load_corpus():
             continue
         meta = json.load(open(os.path.join(d, 'meta.json')))
         props = meta.get('detect_with') or [meta['property']]
-        items.append(dict(id=os.path.basename(d), kind='break', props=props, patch=pf, why=meta.get('summary', '')[:200], source='seeded'))
+        # meta.kind == "benign": a behaviour-preserving refactor written by a sub-agent (false-alarm canary); default: a break
+        kind = 'benign' if meta.get('kind') == 'benign' else 'break'
+        if meta.get('kind') in ('benign-rejected', 'benign-limit'):
+            continue  # not behaviour-preserving after all / needs the contract re-annotated (kept for the record, see meta.json)
+        items.append(dict(id=os.path.basename(d), kind=kind, props=props, patch=pf, why=meta.get('summary', '')[:200], source='seeded'))
     return items
 
 def apply(item, work):
